@@ -193,10 +193,14 @@ fn c03_e2e<S: ScancodeSet + Clone>(ctx: &mut Ctx, set_name: &str, mk: fn() -> S,
             let mut d = mk();
             let mut bytes = pre.clone();
             bytes.push(c);
-            let mut last = Ok(None);
-            for b in &bytes {
-                last = d.advance_state(*b);
-            }
+            let last = guarded(|| {
+                let mut last = Ok(None);
+                for b in &bytes {
+                    last = d.advance_state(*b);
+                }
+                last
+            })
+            .unwrap_or(Ok(None));
             if let Ok(Some(e)) = last {
                 if e.state == KeyState::Down {
                     seq_of.entry(key_name(e.code)).or_insert(bytes);
@@ -231,10 +235,16 @@ fn c03_e2e<S: ScancodeSet + Clone>(ctx: &mut Ctx, set_name: &str, mk: fn() -> S,
                         break;
                     };
                     let bytes = if *s == KeyState::Down { mkseq.clone() } else { brk(mkseq) };
-                    for b in &bytes {
-                        if let Ok(Some(ev)) = kb.add_byte(*b) {
-                            let _ = kb.process_keyevent(ev);
+                    let fed = guarded(|| {
+                        for b in &bytes {
+                            if let Ok(Some(ev)) = kb.add_byte(*b) {
+                                let _ = kb.process_keyevent(ev);
+                            }
                         }
+                    });
+                    if fed.is_err() {
+                        reachable = false;
+                        break;
                     }
                     pre_bytes.extend(bytes);
                 }
@@ -244,16 +254,22 @@ fn c03_e2e<S: ScancodeSet + Clone>(ctx: &mut Ctx, set_name: &str, mk: fn() -> S,
                 for k in main_keys(l) {
                     let Some(mkseq) = seq_of.get(&key_name(k)) else { continue };
                     let mut k2 = kb.clone();
-                    let mut out = None;
-                    for b in mkseq {
-                        if let Ok(Some(ev)) = k2.add_byte(*b) {
-                            out = k2.process_keyevent(ev);
+                    let typed = guarded(|| {
+                        let mut out = None;
+                        for b in mkseq {
+                            if let Ok(Some(ev)) = k2.add_byte(*b) {
+                                out = k2.process_keyevent(ev);
+                            }
                         }
-                    }
+                        out
+                    });
                     n += 1;
-                    let outr: Result<DecodedKey, String> = out.ok_or_else(|| "None".to_string());
+                    let outr: Result<DecodedKey, String> = match typed {
+                        Ok(o) => o.ok_or_else(|| "None".to_string()),
+                        Err(p) => Err(p),
+                    };
                     let mb = base_of(m);
-                    let base_out: Result<DecodedKey, String> = Ok(map_direct(l, k, &mods_from_bits(mb), mode));
+                    let base_out: Result<DecodedKey, String> = guarded(|| map_direct(l, k, &mods_from_bits(mb), mode));
                     match c03_judge(l, k, m, mode, &outr, &base_out) {
                         Ok(true) => nt += 1,
                         Ok(false) => {}
@@ -394,14 +410,20 @@ fn c09_via_decoder(ctx: &mut Ctx) {
             }
             for start_mode in MODES {
                 let mut d = EventDecoder::new(Wrap(l as u8), start_mode);
-                for (k, s) in &paths[m as usize] {
-                    let _ = d.process_keyevent(KeyEvent::new(*k, *s));
+                if guarded(|| {
+                    for (k, s) in &paths[m as usize] {
+                        let _ = d.process_keyevent(KeyEvent::new(*k, *s));
+                    }
+                })
+                .is_err()
+                {
+                    continue;
                 }
                 for k in ALL_KEYS {
                     if is_modifier_key(k) {
                         continue;
                     }
-                    let base = map_direct(l, k, &mods_from_bits(M_NUM), HandleControl::Ignore);
+                    let Ok(base) = guarded(|| map_direct(l, k, &mods_from_bits(M_NUM), HandleControl::Ignore)) else { continue };
                     let DecodedKey::Unicode(c) = base else { continue };
                     if !c.is_ascii_lowercase() {
                         continue;
@@ -409,11 +431,15 @@ fn c09_via_decoder(ctx: &mut Ctx) {
                     // flip to Map right before the press
                     let mut d2 = d.clone();
                     d2.set_ctrl_handling(HandleControl::MapLettersToUnicode);
-                    let got = d2.process_keyevent(KeyEvent::new(k, KeyState::Down));
+                    let got = guarded(|| d2.process_keyevent(KeyEvent::new(k, KeyState::Down)));
                     n += 1;
                     let want = Some(DecodedKey::Unicode(char::from_u32(c as u32 - 0x60).unwrap()));
-                    if got != want && bads.len() < 30 {
-                        bads.push((l, m, start_mode, k, c, crate::replay::fmt_dk(&want), crate::replay::fmt_dk(&got)));
+                    if got != Ok(want) && bads.len() < 30 {
+                        let gt = match &got {
+                            Ok(g) => crate::replay::fmt_dk(g),
+                            Err(p) => p.clone(),
+                        };
+                        bads.push((l, m, start_mode, k, c, crate::replay::fmt_dk(&want), gt));
                     }
                 }
             }
@@ -525,21 +551,31 @@ fn c10_via_decoder(ctx: &mut Ctx) {
             if is_modifier_key(k) {
                 continue;
             }
-            let b = map_direct(l, k, &mods_from_bits(M_NUM), HandleControl::Ignore);
-            let s = map_direct(l, k, &mods_from_bits(M_NUM | M_LSHIFT), HandleControl::Ignore);
+            let (Ok(b), Ok(s)) = (
+                guarded(|| map_direct(l, k, &mods_from_bits(M_NUM), HandleControl::Ignore)),
+                guarded(|| map_direct(l, k, &mods_from_bits(M_NUM | M_LSHIFT), HandleControl::Ignore)),
+            ) else {
+                continue;
+            };
             let letter = matches!((&b, &s), (DecodedKey::Unicode(c), DecodedKey::Unicode(u)) if c.is_lowercase() && upper_single(*c) == Some(*u));
             for shift in [false, true] {
                 let mut d = EventDecoder::new(Wrap(l as u8), HandleControl::Ignore);
-                let _ = d.process_keyevent(KeyEvent::new(KeyCode::CapsLock, KeyState::Down));
-                let _ = d.process_keyevent(KeyEvent::new(KeyCode::CapsLock, KeyState::Up));
-                if shift {
-                    let _ = d.process_keyevent(KeyEvent::new(KeyCode::RShift, KeyState::Down));
-                }
-                let got = d.process_keyevent(KeyEvent::new(k, KeyState::Down));
+                let got = guarded(|| {
+                    let _ = d.process_keyevent(KeyEvent::new(KeyCode::CapsLock, KeyState::Down));
+                    let _ = d.process_keyevent(KeyEvent::new(KeyCode::CapsLock, KeyState::Up));
+                    if shift {
+                        let _ = d.process_keyevent(KeyEvent::new(KeyCode::RShift, KeyState::Down));
+                    }
+                    d.process_keyevent(KeyEvent::new(k, KeyState::Down))
+                });
                 n += 1;
                 let want = Some(if letter == shift { b } else { s });
-                if got != want && bads.len() < 30 {
-                    bads.push((l, k, shift, crate::replay::fmt_dk(&want), crate::replay::fmt_dk(&got)));
+                if got != Ok(want) && bads.len() < 30 {
+                    let gt = match &got {
+                        Ok(g) => crate::replay::fmt_dk(g),
+                        Err(p) => p.clone(),
+                    };
+                    bads.push((l, k, shift, crate::replay::fmt_dk(&want), gt));
                 }
             }
         }
@@ -700,11 +736,14 @@ pub fn c12(ctx: &mut Ctx) -> (u64, String) {
                     }
                     for modk in [None, Some(KeyCode::LShift), Some(KeyCode::RAltGr)] {
                         let mut d = EventDecoder::new(Wrap(l as u8), HandleControl::MapLettersToUnicode);
-                        if let Some(mk) = modk {
-                            let _ = d.process_keyevent(KeyEvent::new(mk, KeyState::Down));
-                        }
+                        let typed = guarded(|| {
+                            if let Some(mk) = modk {
+                                let _ = d.process_keyevent(KeyEvent::new(mk, KeyState::Down));
+                            }
+                            d.process_keyevent(KeyEvent::new(k, KeyState::Down))
+                        });
                         n += 1;
-                        if d.process_keyevent(KeyEvent::new(k, KeyState::Down)) == Some(DecodedKey::Unicode(c as char)) {
+                        if typed == Ok(Some(DecodedKey::Unicode(c as char))) {
                             found = true;
                             break 'k;
                         }
@@ -888,7 +927,7 @@ pub fn c17(ctx: &mut Ctx) -> (u64, String) {
             for k in ALL_KEYS {
                 for m in [M_NUM, M_NUM | M_LSHIFT, M_NUM | M_RALT, M_NUM | M_LCTRL] {
                     let mods = mods_from_bits(m);
-                    if map_direct(a, k, &mods, HandleControl::MapLettersToUnicode) != map_direct(b, k, &mods, HandleControl::MapLettersToUnicode) {
+                    if guarded(|| map_direct(a, k, &mods, HandleControl::MapLettersToUnicode)) != guarded(|| map_direct(b, k, &mods, HandleControl::MapLettersToUnicode)) {
                         d += 1;
                     }
                 }
@@ -911,18 +950,24 @@ pub fn c17(ctx: &mut Ctx) -> (u64, String) {
                     macro_rules! body {
                         ($d:expr, $mk:expr, $spec:expr) => {{
                             let mut d = $d;
-                            for (k, s) in &paths[*m as usize] {
-                                let _ = d.process_keyevent(KeyEvent::new(*k, *s));
+                            let prep = guarded(|| {
+                                for (k, s) in &paths[*m as usize] {
+                                    let _ = d.process_keyevent(KeyEvent::new(*k, *s));
+                                }
+                                d.change_layout($mk);
+                            });
+                            if prep.is_err() {
+                                continue;
                             }
-                            d.change_layout($mk);
                             for k in ALL_KEYS {
                                 if is_modifier_key(k) {
                                     continue;
                                 }
-                                let got = d.process_keyevent(KeyEvent::new(k, KeyState::Down));
-                                let want = Some(map_direct(to, k, &mods_from_bits(*m), HandleControl::MapLettersToUnicode));
+                                let got = guarded(|| d.process_keyevent(KeyEvent::new(k, KeyState::Down)));
+                                let want = guarded(|| Some(map_direct(to, k, &mods_from_bits(*m), HandleControl::MapLettersToUnicode)));
                                 n += 1;
                                 if got != want {
+                                    let (got, want) = (got.clone().unwrap_or(None), want.clone().unwrap_or(None));
                                     let comp = format!("ed:{}-{}:Map", $spec, LAYOUT_NAMES[from]);
                                     let mut ops: Vec<Op> = paths[*m as usize].iter().map(|(k, s)| Op::Key(*k, *s)).collect();
                                     ops.push(Op::Layout(to as u8));
@@ -937,7 +982,7 @@ pub fn c17(ctx: &mut Ctx) -> (u64, String) {
                         }};
                     }
                     if byref {
-                        body!(EventDecoder::new(&ANY_STATICS[from], HandleControl::MapLettersToUnicode), &ANY_STATICS[to], "anyref");
+                        body!(EventDecoder::new(any_static(from), HandleControl::MapLettersToUnicode), any_static(to), "anyref");
                     } else {
                         body!(EventDecoder::new(any_of(from), HandleControl::MapLettersToUnicode), any_of(to), "any");
                     }
